@@ -91,6 +91,20 @@ Definition section_init (stream : list Z) (le is64 : bool) (h : sheader) : res s
   else
     Ok (mk_section h compressed (Raw 0) (h_size h) (h_addralign h)).
 
+(* ELFFile._get_section_header(n) = struct_parse(Elf_Shdr, stream, _section_offset(n)) with
+   _section_offset(n) = e_shoff + n * e_shentsize.  EVERY way to a section goes through it:
+   get_section(n); iter_sections() = get_section(i) for i in range(num_sections()), filtered by
+   sh_type for iter_sections(type); the name map behind get_section_by_name / get_section_index /
+   has_section is filled from iter_sections().  So "section n" means this header whichever entry
+   point was used.  [sheader_of]: the fields of the record the contents code reads. *)
+Definition sheader_of (T : list (Z * string)) (r : list (string * fval)) : sheader :=
+  mk_sheader (dec_enum T (rec_z r "sh_type")) (rec_z r "sh_flags") (rec_z r "sh_addr")
+             (rec_z r "sh_offset") (rec_z r "sh_size") (rec_z r "sh_addralign").
+Definition section_header_at (stream : list Z) (le is64 : bool) (T : list (Z * string))
+           (shoff shentsize n : Z) : res sheader :=
+  do r <- struct_parse_at (gen_Elf_Shdr le is64) stream (shoff + n * shentsize);
+  Ok (sheader_of T r).
+
 (* properties compressed / data_size / data_alignment *)
 Definition compressed (s : section) : Z := s_compressed s.
 Definition data_size (s : section) : Z := s_decompressed_size s.
